@@ -53,4 +53,9 @@ def Mux.dispatch (mux : Mux) (short : Option Nat) (app code : Nat) (req : Bool) 
       | some h => .handler h
       | none => mux.catchAll
 
+/-- `ServeDIAM` with the dictionary lookup it performs itself: `FindCommand(app, code)` of the
+    message's dictionary gives the short name -/
+def Mux.serve (mux : Mux) (p : Parser) (app code : Nat) (req : Bool) : Dispatch :=
+  mux.dispatch ((p.findCommand app code).map (·.short)) app code req
+
 end DV
